@@ -271,6 +271,11 @@ class Cluster:
                         self.get_idle_resources(
                             observation))):
                     raise RuntimeError
+                if not ingest and machine in self._clusters[c]['resources'][
+                        'ingest']:
+                    # the ingest pool only admits the ingest tasks that
+                    # provision_ingest_resources() created for it
+                    raise RuntimeError
                 if ingest:
                     # Ingest resources allocated separately from scheduler
                     # self._set_task_running()
